@@ -27,3 +27,4 @@ def run(ctx):
     H.r14_10_get_value_typestate(ctx, 'R16.4')
     S.r03_8_whole_node(ctx, 'R16.5')
     H.r14_1_scalar_table(ctx, 'R16.6')
+    H.r14_9_get_value_text(ctx, 'R16.7', dump_side=False)
